@@ -187,5 +187,6 @@ Proof.
   split.
   { apply consistent_of_nodup. vm_compute. repeat constructor; simpl; intuition discriminate. }
   split; [|reflexivity].
-  vm_compute. repeat constructor; intros H; simpl in H; intuition discriminate.
+  unfold A_ex, all_reqs; cbn [a_pre a_modules app flat_map tree_reqs].
+  repeat (apply Forall_cons || apply Forall_nil); intros H; vm_compute in H; intuition discriminate.
 Qed.
